@@ -37,6 +37,28 @@ def op_attach(st, o):
     return "attached"
 
 
+@op("S.attach_from")
+def op_attach_from(st, o):
+    """b.subregions = a.subregions: the caller hands the dictionary (and Region objects)
+    of one mesh to another. The receiving mesh holds its own copies, so a later in-place
+    step on either mesh must not move the other's subregions (whole-heap check)."""
+    ha, hb = st.h[o["src"]], st.h[o["on"]]
+    if ha.kind != "M" or hb.kind != "M" or o["src"] == o["on"]:
+        return "skipped"
+    ma, mb = ha.box.v, hb.box.v
+    if ma.region.ndim != mb.region.ndim or not ma.subs:
+        return "skipped"
+    tol = min(mb.cell) / 1000
+    if not all(mb.sub_ok(s, tol) for _, s in ma.subs):
+        return "skipped"
+    res = sut(setattr, hb.obj, "subregions", ha.obj.subregions)
+    expect_ok(res, "b.subregions = a.subregions (aligned in b)", "H")
+    hb.box.v = mb.with_subs(list(ma.subs))
+    st.stats.probe("subregions_from_other_mesh")
+    st.stats.oracle("A")
+    return "attached-from"
+
+
 @op("S.attach_bad")
 def op_attach_bad(st, o):
     """A candidate that is misaligned, fractional, sticking out or of the wrong type:
